@@ -19,7 +19,7 @@ pub fn def() -> PropDef {
         job_level,
         run_job,
         replay,
-        rule: "seeds = every cfg_samples/*.kbd, every ---- block of docs/config.adoc containing a (def...) form, every string literal containing (defsrc in parser/src/cfg/tests*.rs and src/tests/sim_tests/*.rs (read from /repo's working tree at run time). For every seed and every s-expression node: delete, duplicate, swap with next sibling, wrap in a list, unwrap a list, replace by each of {(), 0, 1, 65535, 65536, -1, $n, $undefined, @undefined, \"\", 🔣, _, an unterminated string, an unterminated block comment} (quick: seeds <= 6000 bytes get all mutations, larger seeds delete/()/$undefined only; thorough: everything). Token enumeration: ALL strings of <= L tokens over a 24-token alphabet, alone and spliced into a minimal valid config. Include relocation: every top-level form of every seed (<= 40 kB) moved into an included file with 3 header variants (none, multi-byte comment lines, BOM+CRLF). Byte-level variants of every seed: BOM, CRLF, BOM+CRLF, multi-byte comment lines, unterminated string / raw string / block comment, stray ')', NUL, tabs, truncation at every 1/16 (with and without BOM). Self-reference family: all defvar/defalias/deftemplate tables over <= 3 names with values drawn from the names (cycles), include of self / missing / mutual. Oracle: parser returns Ok or Err without panicking or dying; for Err every labelled span can be read from the named source (in bounds, on char boundaries) and the Debug rendering of the report returns. distinct = distinct (outcome class, first 60 chars of message) pairs; evaluations = parses.",
+        rule: "seeds = every cfg_samples/*.kbd, every ---- block of docs/config.adoc containing a (def...) form, every string literal containing (defsrc in parser/src/cfg/tests*.rs and src/tests/sim_tests/*.rs (read from /repo's working tree at run time). For every seed and every s-expression node: delete, duplicate, swap with next sibling, wrap in a list, unwrap a list, replace by each of {(), 0, 1, 65535, 65536, -1, $n, $undefined, @undefined, \"\", 🔣, _, an unterminated string, an unterminated block comment} (quick: seeds <= 6000 bytes get all mutations, larger seeds delete/()/$undefined only; thorough: everything). Token enumeration: ALL strings of <= L tokens over a 24-token alphabet, alone and spliced into a minimal valid config. Include relocation: every top-level form of every seed (<= 40 kB) moved into an included file with 3 header variants (none, multi-byte comment lines, BOM+CRLF). Byte-level variants of every seed: BOM, CRLF, BOM+CRLF, multi-byte comment lines, unterminated string / raw string / block comment, stray ')', NUL, tabs, truncation at every 1/16 (with and without BOM). Self-reference family: all defvar/defalias/deftemplate tables over <= 3 names with values drawn from the names (cycles: `$x`, `(concat $x z)`, `($x)`, and `(concat \"$\" x)` which only becomes a reference once evaluated), include of self / missing / mutual. Oracle: parser returns Ok or Err without panicking or dying; for Err every labelled span can be read from the named source (in bounds, on char boundaries) and the Debug rendering of the report returns. distinct = distinct (outcome class, first 60 chars of message) pairs; evaluations = parses.",
         assumptions: &[
             "texts further than one mutation from every seed and longer than L tokens are not covered",
             "non-termination is approximated by the worker deadline (a hanging parse is reported as machinery failure with the job index)",
@@ -493,6 +493,8 @@ fn selfref_texts() -> Vec<(String, FxHashMap<String, String>)> {
             v.push(format!("${x}"));
             v.push(format!("(concat ${x} z)"));
             v.push(format!("(${x})"));
+            // a reference that only comes into being when the concat is evaluated
+            v.push(format!("(concat \"$\" {x})"));
         }
         v.push("x".into());
         v
